@@ -1,9 +1,11 @@
-(* C19 — proofs.  Invariants of the interleaving semantics (any number of processes, any
-   schedule) and the big-step characterisation of sequential histories. *)
+(* C19 — proofs.  Object store / aliasing lemmas, the invariants of the interleaving semantics
+   (any number of processes, any schedule, any transport, in-place transforms and consumers that
+   write to what they were handed) and the big-step characterisation of sequential histories. *)
 From Coq Require Import ZArith List Bool Arith Lia.
 Import ListNotations.
 From KD Require Import C19.Model C19.Spec.
 Open Scope Z_scope.
+
 
 (* ------------------------------------------------------------------ lists *)
 Lemma nth_error_set_nth_eq : forall A (l : list A) n a x,
@@ -12,10 +14,6 @@ Proof. induction l; destruct n; simpl; intros; try discriminate; eauto. Qed.
 
 Lemma nth_error_set_nth_neq : forall A (l : list A) n m a,
   n <> m -> nth_error (set_nth n a l) m = nth_error l m.
-Proof. induction l; destruct n, m; simpl; intros; try congruence; eauto. Qed.
-
-Lemma nth_error_set_nth_none : forall A (l : list A) n m a,
-  nth_error l m = None -> nth_error (set_nth n a l) m = None.
 Proof. induction l; destruct n, m; simpl; intros; try congruence; eauto. Qed.
 
 Lemma set_nth_set_nth : forall A (l : list A) n a b, set_nth n a (set_nth n b l) = set_nth n a l.
@@ -37,6 +35,20 @@ Proof. intros. rewrite Forall_forall in H. eapply H, nth_error_In; eauto. Qed.
 Lemma nth_error_repeat : forall A (a : A) n p, (p < n)%nat -> nth_error (repeat a n) p = Some a.
 Proof. induction n; destruct p; simpl; intros; try lia; auto. apply IHn; lia. Qed.
 
+Lemma nth_set_nth_eq : forall A (l : list A) n a d, (n < length l)%nat -> nth n (set_nth n a l) d = a.
+Proof. induction l; destruct n; simpl; intros; try lia; auto. apply IHl; lia. Qed.
+
+Lemma nth_set_nth_neq : forall A (l : list A) n m a d, n <> m -> nth m (set_nth n a l) d = nth m l d.
+Proof. induction l; destruct n, m; simpl; intros; try congruence; auto. Qed.
+
+Lemma map_set_nth_same : forall A B (f : A -> B) (l : list A) n a x,
+  nth_error l n = Some x -> f a = f x -> map f (set_nth n a l) = map f l.
+Proof.
+  induction l; destruct n; simpl; intros; try discriminate; auto.
+  - inversion H; subst. rewrite H0. reflexivity.
+  - f_equal. eauto.
+Qed.
+
 Lemma mem_true_iff : forall i l, mem i l = true <-> In i l.
 Proof.
   unfold mem; intros; rewrite existsb_exists; split.
@@ -47,23 +59,125 @@ Qed.
 Lemma mem_cons : forall i j l, mem i (j :: l) = (i =? j) || mem i l.
 Proof. reflexivity. Qed.
 
+(* ------------------------------------------------------------------ the object store *)
+Lemma hget_app_l : forall h l a, (a < length h)%nat -> hget a (h ++ l) = hget a h.
+Proof. intros. unfold hget. apply app_nth1. auto. Qed.
+
+Lemma hget_alloc : forall h v, hget (length h) (h ++ [v]) = v.
+Proof. intros. unfold hget. rewrite app_nth2 by lia. rewrite Nat.sub_diag. reflexivity. Qed.
+
+Lemma hget_hset_eq : forall h a v, (a < length h)%nat -> hget a (hset a v h) = v.
+Proof. intros. unfold hget, hset. apply nth_set_nth_eq. auto. Qed.
+
+Lemma hget_hset_neq : forall h a b v, a <> b -> hget b (hset a v h) = hget b h.
+Proof. intros. unfold hget, hset. apply nth_set_nth_neq. auto. Qed.
+
+Lemma length_hset : forall h a v, length (hset a v h) = length h.
+Proof. intros. apply length_set_nth. Qed.
+
+Lemma length_hbump : forall w l h, length (hbump w l h) = length h.
+Proof.
+  unfold hbump. induction l; simpl; intros; auto. rewrite IHl. apply length_hset.
+Qed.
+
+Lemma hget_hbump_other : forall w l h b, ~ In b l -> hget b (hbump w l h) = hget b h.
+Proof.
+  unfold hbump. induction l; simpl; intros; auto.
+  rewrite IHl by tauto. apply hget_hset_neq. intro; subst; tauto.
+Qed.
+
+(* h' extends h: more objects, the old ones untouched *)
+Definition ext (h h' : heap) : Prop :=
+  (length h <= length h')%nat /\ forall b, (b < length h)%nat -> hget b h' = hget b h.
+
+Lemma ext_refl : forall h, ext h h.
+Proof. split; auto. Qed.
+
+Lemma ext_trans : forall a b c, ext a b -> ext b c -> ext a c.
+Proof.
+  intros a b c [L1 H1] [L2 H2]. split; [lia|]. intros x Hx. rewrite H2 by lia. apply H1; auto.
+Qed.
+
+Lemma ext_alloc : forall h v, ext h (h ++ [v]).
+Proof. split; [rewrite app_length; simpl; lia|]. intros. apply hget_app_l; auto. Qed.
+
+Section T.
+  Variable byref inplace : bool.
+  Variable tf : Z -> Z -> Z.
+  Variable draws : nat -> nat -> Z.
+
+  Lemma transport_ok : forall h a h1 ad,
+    transport byref h a = (h1, ad) -> (a < length h)%nat ->
+    ext h h1 /\ (ad < length h1)%nat /\ hget ad h1 = hget a h /\ (ad = a \/ (length h <= ad)%nat).
+  Proof.
+    unfold transport, halloc. intros h a h1 ad H Ha. destruct byref; inversion H; subst.
+    - repeat split; auto.
+    - repeat split; try apply ext_alloc; auto.
+      + rewrite app_length; simpl; lia.
+      + apply hget_alloc.
+  Qed.
+
+  (* the repaired tail of cached[i]: the result is made of new objects only *)
+  Lemma deliver_ok : forall p i k h a h2 reach e,
+    deliver true inplace tf draws p i k h a = (h2, reach, e) -> (a < length h)%nat ->
+    ext h h2 /\ (forall b, In b reach -> (length h <= b < length h2)%nat) /\
+    e = ERet p i k (RVal (tf (draws p k) (hget a h))).
+  Proof.
+    unfold deliver, ret_copy, apply_tf, halloc. intros p i k h a h2 reach e H Ha.
+    assert (E1 : hget (length h) (h ++ [hget a h]) = hget a h) by apply hget_alloc.
+    destruct inplace; inversion H; subst; clear H.
+    - rewrite E1. repeat split.
+      + rewrite length_hset, app_length; simpl; lia.
+      + intros b Hb. rewrite hget_hset_neq by lia. apply hget_app_l; auto.
+      + destruct H as [<-|[]]. lia.
+      + destruct H as [<-|[]]. rewrite length_hset, app_length; simpl; lia.
+      + rewrite hget_hset_eq; auto. rewrite app_length; simpl; lia.
+    - rewrite E1. repeat split.
+      + rewrite !app_length; simpl; lia.
+      + intros b Hb. rewrite hget_app_l by (rewrite app_length; simpl; lia). apply hget_app_l; auto.
+      + destruct H as [<-|[<-|[]]]; rewrite ?app_length; simpl; lia.
+      + destruct H as [<-|[<-|[]]]; rewrite ?app_length; simpl; lia.
+      + rewrite hget_alloc. reflexivity.
+  Qed.
+End T.
+
+(* the objects some consumer may write to *)
+Definition W (ps : list proc) : list nat := concat (map last ps).
+
+Lemma W_set_nth : forall ps p pr b,
+  In b (W (set_nth p pr ps)) -> In b (last pr) \/ In b (W ps).
+Proof.
+  unfold W. induction ps as [|x ps IH]; destruct p; simpl; intros pr b H; auto.
+  - rewrite in_app_iff in *. tauto.
+  - rewrite in_app_iff in *. destruct H as [H|H]; auto. apply IH in H. tauto.
+Qed.
+
+Lemma W_nth_error : forall ps p pr, nth_error ps p = Some pr -> incl (last pr) (W ps).
+Proof.
+  unfold W. induction ps as [|x ps IH]; destruct p; simpl; intros pr H; try discriminate.
+  - inversion H; subst. intros b Hb. apply in_or_app; auto.
+  - intros b Hb. apply in_or_app. right. eapply IH; eauto.
+Qed.
+
 Section P.
   Variable fixed : bool.
+  Variable byref inplace : bool.
   Variable base : Z -> option Z.
   Variable blen : Z.
   Variable tf : Z -> Z -> Z.
   Variable draws : nat -> nat -> Z.
 
-  Notation pstep := (pstep fixed base blen tf draws).
-  Notation step := (step fixed base blen tf draws).
-  Notation run := (run fixed base blen tf draws).
-  Notation do_cmd := (do_cmd fixed base blen tf draws).
-  Notation seq_exec := (seq_exec fixed base blen tf draws).
-  Notation spec_seq := (spec_seq base blen tf draws).
+  Notation pstep := (pstep fixed true byref inplace base blen tf draws).
+  Notation step := (step fixed true byref inplace base blen tf draws).
+  Notation run := (run fixed true byref inplace base blen tf draws).
 
-  (* -------------------------------------------------------- concurrent invariants *)
-  Definition proc_ok (pr : proc) : Prop :=
-    match pc pr with PSet i v => base i = Some v | _ => True end.
+  (* object a holds the sample of index i and no consumer can write to it *)
+  Definition cell_ok (h : heap) (w : list nat) (i : Z) (a : nat) : Prop :=
+    (a < length h)%nat /\ base i = Some (hget a h) /\ ~ In a w.
+  Definition cache_ok (h : heap) (w : list nat) (d : dict) : Prop :=
+    Forall (fun kv => cell_ok h w (fst kv) (snd kv)) d.
+  Definition proc_ok (h : heap) (w : list nat) (pr : proc) : Prop :=
+    match pc pr with PSet i a => cell_ok h w i a | _ => True end.
 
   Definition ret_good (e : ev) : Prop :=
     match e with
@@ -71,93 +185,248 @@ Section P.
     | _ => True
     end.
 
-  Lemma dict_ok_dget : forall d i v, dict_ok base d -> dget i d = Some v -> base i = Some v.
+  (* what one atomic step may do to the store: old objects outside w keep their content, the
+     objects of l' are consumer-writable ones of before or new *)
+  Definition frame (h : heap) (w : list nat) (h' : heap) (l' : list nat) : Prop :=
+    (length h <= length h')%nat /\
+    (forall b, (b < length h)%nat -> ~ In b w -> hget b h' = hget b h) /\
+    (forall b, In b l' -> (b < length h')%nat /\ (In b w \/ (length h <= b)%nat)).
+
+  Lemma cell_ok_frame : forall h w h' l' w' i a,
+    frame h w h' l' -> (forall b, In b w' -> In b l' \/ In b w) ->
+    cell_ok h w i a -> cell_ok h' w' i a.
   Proof.
-    induction d as [|[k w] d IH]; simpl; intros i v Hok Hg; try discriminate.
+    intros h w h' l' w' i a (L & K & N) Hw (A & B & C). repeat split.
+    - lia.
+    - rewrite K; auto.
+    - intro Hin. apply Hw in Hin. destruct Hin as [Hin|Hin]; auto.
+      apply N in Hin. destruct Hin as [_ [Hin|Hin]]; auto. lia.
+  Qed.
+
+  Lemma cache_ok_dget : forall h w d i a, cache_ok h w d -> dget i d = Some a -> cell_ok h w i a.
+  Proof.
+    induction d as [|[k x] d IH]; simpl; intros i a Hok Hg; try discriminate.
     inversion Hok; subst. destruct (i =? k) eqn:E.
     - apply Z.eqb_eq in E. subst. inversion Hg; subst. assumption.
     - eauto.
   Qed.
 
-  Lemma pstep_inv : forall p d pr d' pr' evs,
-    pstep p d pr = (d', pr', evs) -> dict_ok base d -> proc_ok pr ->
-    dict_ok base d' /\ proc_ok pr' /\ Forall ret_good evs.
+  Lemma ext_frame : forall h w h' l',
+    ext h h' -> (forall b, In b l' -> (b < length h')%nat /\ (In b w \/ (length h <= b)%nat)) -> frame h w h' l'.
+  Proof. intros h w h' l' [L K] N. repeat split; auto; apply N; auto. Qed.
+
+  Lemma pstep_inv : forall p h d pr w h' d' pr' evs,
+    pstep p h d pr = (h', d', pr', evs) ->
+    Forall (fun b => (b < length h)%nat) w -> incl (last pr) w ->
+    cache_ok h w d -> proc_ok h w pr ->
+    frame h w h' (last pr') /\
+    (forall w', (forall b, In b w' -> In b (last pr') \/ In b w) -> cache_ok h' w' d' /\ proc_ok h' w' pr') /\
+    Forall ret_good evs.
   Proof.
-    intros p d pr d' pr' evs H Hd Hp. unfold Model.pstep in H. unfold proc_ok in Hp.
+    intros p h d pr w h' d' pr' evs H Hw Hl Hd Hp. unfold Model.pstep in H. unfold proc_ok in Hp.
+    rewrite Forall_forall in Hw.
+    assert (Hold : forall b, In b (last pr) -> (b < length h)%nat /\ (In b w \/ (length h <= b)%nat)).
+    { intros b Hb. split; auto. }
+    assert (Hsame : frame h w h (last pr)) by (apply ext_frame; auto using ext_refl).
+    assert (Hkeep : forall w', (forall b, In b w' -> In b (last pr) \/ In b w) -> cache_ok h w' d).
+    { intros w' Hw'. unfold cache_ok in *. eapply Forall_impl; [|exact Hd]. intros kv Hkv.
+      eapply cell_ok_frame; eauto. }
     destruct (pc pr) eqn:Epc.
     - (* PStart *)
-      destruct (todo pr) as [|[i| |] r] eqn:Et.
-      + inversion H; subst. unfold proc_ok. rewrite Epc. auto.
-      + destruct (dget i d); inversion H; subst; unfold proc_ok; simpl; auto.
-      + inversion H; subst. unfold proc_ok, dict_ok; simpl; auto 6.
-      + inversion H; subst. unfold proc_ok; simpl; auto 6.
+      destruct (todo pr) as [|[i| | |w0] r] eqn:Et.
+      + inversion H; subst. repeat split; auto; unfold proc_ok; rewrite ?Epc; auto.
+      + destruct (dget i d); inversion H; subst; simpl; repeat split; auto; unfold proc_ok; simpl; auto.
+      + inversion H; subst. simpl. repeat split; auto; try (unfold proc_ok; simpl; auto; fail). constructor.
+      + inversion H; subst. simpl. repeat split; auto; unfold proc_ok; simpl; auto.
+      + (* CMut: writes to consumer-owned objects only *)
+        inversion H; subst. simpl.
+        assert (Hf : frame h w (hbump w0 (last pr) h) (last pr)).
+        { repeat split.
+          - rewrite length_hbump. lia.
+          - intros b Hb Hn. apply hget_hbump_other. intro Hin. apply Hn, Hl, Hin.
+          - rewrite length_hbump. apply Hw, Hl, H0.
+          - left. apply Hl, H0. }
+        split; [exact Hf|]. split; [|repeat constructor]. intros w' Hw'. split.
+        * unfold cache_ok in *. eapply Forall_impl; [|exact Hd]. intros kv Hkv. eapply cell_ok_frame; eauto.
+        * unfold proc_ok; simpl; auto.
     - (* PMiss *)
-      destruct (base i) eqn:Eb; inversion H; subst; unfold proc_ok; simpl.
-      + auto 6.
-      + repeat split; auto. repeat apply Forall_cons; try apply Forall_nil; simpl; auto. left. unfold expected. rewrite Eb. reflexivity.
+      destruct (base i) eqn:Eb.
+      + unfold halloc in H. inversion H; subst. simpl.
+        assert (Hf : frame h w (h ++ [z]) (last pr)).
+        { apply ext_frame; [apply ext_alloc|]. intros b Hb. rewrite app_length; simpl. split; [specialize (Hw b (Hl b Hb)); lia | left; auto]. }
+        split; [exact Hf|]. split; [|repeat constructor]. intros w' Hw'. split.
+        * unfold cache_ok in *. eapply Forall_impl; [|exact Hd]. intros kv Hkv. eapply cell_ok_frame; eauto.
+        * unfold proc_ok; simpl. repeat split.
+          -- rewrite app_length; simpl; lia.
+          -- rewrite hget_alloc. auto.
+          -- intro Hin. apply Hw' in Hin. destruct Hin as [Hin|Hin]; [apply Hl in Hin|]; apply Hw in Hin; lia.
+      + inversion H; subst. simpl. split; [exact Hsame|]. split.
+        * intros w' Hw'. split; auto; unfold proc_ok; simpl; auto.
+        * repeat apply Forall_cons; try apply Forall_nil; simpl; auto. left. unfold expected. rewrite Eb. reflexivity.
     - (* PSet *)
-      inversion H; subst. unfold proc_ok; simpl. repeat split; auto.
-      + constructor; auto.
-      + repeat apply Forall_cons; try apply Forall_nil; simpl; auto. left. unfold expected. rewrite Hp. reflexivity.
+      destruct Hp as (A & B & Cn).
+      destruct (transport byref h a) as [h1 ad] eqn:Et.
+      destruct (deliver true inplace tf draws p i (nacc pr) h1 a) as [[h2 reach] e] eqn:Ed.
+      inversion H; subst; clear H. simpl.
+      destruct (transport_ok _ _ _ _ _ Et A) as (X1 & X2 & X3 & X4).
+      assert (A1 : (a < length h1)%nat) by (destruct X1; lia).
+      destruct (deliver_ok _ _ _ _ _ _ _ _ _ _ _ Ed A1) as (Y1 & Y2 & Y3).
+      pose proof (ext_trans _ _ _ X1 Y1) as Z1.
+      assert (Hf : frame h w h' reach).
+      { apply ext_frame; auto. intros b Hb. apply Y2 in Hb. destruct X1. split; [lia | right; lia]. }
+      split; [exact Hf|]. split.
+      + intros w' Hw'. split.
+        * constructor.
+          -- simpl. destruct X4 as [->|X4].
+             ++ eapply cell_ok_frame; eauto. repeat split; auto.
+             ++ repeat split.
+                ** destruct Y1; lia.
+                ** destruct Y1 as [_ Y1]. rewrite Y1 by auto. rewrite X3. auto.
+                ** intro Hin. apply Hw' in Hin. destruct Hin as [Hin|Hin].
+                   --- apply Y2 in Hin. lia.
+                   --- apply Hw in Hin. lia.
+          -- unfold cache_ok in *. eapply Forall_impl; [|exact Hd]. intros kv Hkv. eapply cell_ok_frame; eauto.
+        * unfold proc_ok; simpl; auto.
+      + rewrite Y3. repeat apply Forall_cons; try apply Forall_nil. simpl. left. unfold expected. rewrite B.
+        destruct X1 as [_ X1]. rewrite X1 by auto. reflexivity.
     - (* PHit *)
-      destruct (dget i d) eqn:Eg.
-      + inversion H; subst. unfold proc_ok; simpl. repeat split; auto.
-        repeat apply Forall_cons; try apply Forall_nil; simpl; auto. left. unfold expected. rewrite (dict_ok_dget _ _ _ Hd Eg). reflexivity.
-      + destruct fixed eqn:Ef; inversion H; subst; unfold proc_ok; simpl; repeat split; auto.
-        repeat apply Forall_cons; try apply Forall_nil; simpl; auto.
+      destruct (dget i d) as [ad|] eqn:Eg.
+      + destruct (cache_ok_dget _ _ _ _ _ Hd Eg) as (A & B & Cn).
+        destruct (transport byref h ad) as [h1 a] eqn:Et.
+        destruct (deliver true inplace tf draws p i (nacc pr) h1 a) as [[h2 reach] e] eqn:Ed.
+        inversion H; subst; clear H. simpl.
+        destruct (transport_ok _ _ _ _ _ Et A) as (X1 & X2 & X3 & X4).
+        destruct (deliver_ok _ _ _ _ _ _ _ _ _ _ _ Ed X2) as (Y1 & Y2 & Y3).
+        pose proof (ext_trans _ _ _ X1 Y1) as Z1.
+        assert (Hf : frame h w h' reach).
+        { apply ext_frame; auto. intros b Hb. apply Y2 in Hb. destruct X1. split; [lia | right; lia]. }
+        split; [exact Hf|]. split.
+        * intros w' Hw'. split.
+          -- unfold cache_ok in *. eapply Forall_impl; [|exact Hd]. intros kv Hkv. eapply cell_ok_frame; eauto.
+          -- unfold proc_ok; simpl; auto.
+        * rewrite Y3. repeat apply Forall_cons; try apply Forall_nil. simpl. left. unfold expected. rewrite B, X3. reflexivity.
+      + destruct fixed eqn:Ef; inversion H; subst; simpl; (split; [exact Hsame|]); (split; [intros w' Hw'; split; auto; unfold proc_ok; simpl; auto|]);
+          repeat apply Forall_cons; try apply Forall_nil; simpl; auto.
   Qed.
 
   Definition inv (s : state) : Prop :=
-    dict_ok base (sd s) /\ Forall proc_ok (procs s) /\ Forall ret_good (log s).
+    Forall (fun b => (b < length (hp s))%nat) (W (procs s)) /\
+    cache_ok (hp s) (W (procs s)) (sd s) /\
+    Forall (proc_ok (hp s) (W (procs s))) (procs s) /\
+    Forall ret_good (log s).
 
   Lemma step_inv : forall s p, inv s -> inv (step s p).
   Proof.
-    intros s p (Hd & Hp & Hl). unfold Model.step.
+    intros s p (Hw & Hd & Hp & Hl). unfold Model.step.
     destruct (nth_error (procs s) p) as [pr|] eqn:E; [|repeat split; auto].
-    destruct (pstep p (sd s) pr) as [[d' pr'] evs] eqn:Es.
-    destruct (pstep_inv _ _ _ _ _ _ Es Hd (Forall_nth_error _ _ _ _ _ Hp E)) as (A & B & C).
+    destruct (pstep p (hp s) (sd s) pr) as [[[h' d'] pr'] evs] eqn:Es.
+    destruct (pstep_inv _ _ _ _ _ _ _ _ _ Es Hw (W_nth_error _ _ _ E) Hd (Forall_nth_error _ _ _ _ _ Hp E))
+      as (F & G & R).
+    specialize (G (W (set_nth p pr' (procs s))) (W_set_nth _ _ _)). destruct G as [G1 G2].
     repeat split; simpl; auto.
-    - apply Forall_set_nth; auto.
+    - rewrite Forall_forall. intros b Hb. apply W_set_nth in Hb. destruct F as (L & _ & N).
+      destruct Hb as [Hb|Hb]; [apply N in Hb; tauto|]. rewrite Forall_forall in Hw. apply Hw in Hb. lia.
+    - apply Forall_set_nth; auto. eapply Forall_impl; [|exact Hp]. intros q Hq. unfold proc_ok in *.
+      destruct (pc q); auto. eapply cell_ok_frame; eauto. apply W_set_nth.
     - apply Forall_app; auto.
   Qed.
 
   Lemma run_inv : forall sched s, inv s -> inv (run sched s).
   Proof. induction sched; simpl; intros; auto. apply IHsched, step_inv; auto. Qed.
+End P.
 
-  Lemma init_inv : forall d0 progs, dict_ok base d0 -> inv (init d0 progs).
+Definition cache_init_ok (base : Z -> option Z) (h0 : heap) (d0 : dict) : Prop :=
+  Forall (fun kv => (snd kv < length h0)%nat /\ base (fst kv) = Some (hget (snd kv) h0)) d0.
+
+Lemma W_init : forall progs, W (map (fun pg => {| pc := PStart; todo := pg; nacc := O; last := [] |}) progs) = [].
+Proof. unfold W. induction progs; simpl; auto. Qed.
+
+Section Q.
+  Variable fixed : bool.
+  Variable byref inplace : bool.
+  Variable base : Z -> option Z.
+  Variable blen : Z.
+  Variable tf : Z -> Z -> Z.
+  Variable draws : nat -> nat -> Z.
+
+  Notation run := (run fixed true byref inplace base blen tf draws).
+  Notation inv := (inv fixed base tf draws).
+
+  Lemma init_inv : forall h0 d0 progs, cache_init_ok base h0 d0 -> inv (init h0 d0 progs).
   Proof.
-    intros. repeat split; simpl; auto. rewrite Forall_map. rewrite Forall_forall. intros; exact I.
+    intros h0 d0 progs H. unfold inv, init; simpl. rewrite W_init. repeat split; auto.
+    - unfold cache_ok. eapply Forall_impl; [|exact H]. intros kv [A B]. repeat split; auto.
+    - rewrite Forall_map. rewrite Forall_forall. intros; exact I.
   Qed.
 
-  Lemma conc_inv : forall d0 progs sched, dict_ok base d0 -> inv (run sched (init d0 progs)).
+  Lemma conc_inv : forall h0 d0 progs sched, cache_init_ok base h0 d0 -> inv (run sched (init h0 d0 progs)).
   Proof. intros. apply run_inv, init_inv; auto. Qed.
 
-  Lemma conc_dict_subset_base_l : forall d0 progs sched,
-    dict_ok base d0 -> dict_ok base (sd (run sched (init d0 progs))).
-  Proof. intros. apply conc_inv; auto. Qed.
-
-  Lemma conc_values_equal_base_l : forall d0 progs sched,
-    dict_ok base d0 -> values_equal_base base tf draws (log (run sched (init d0 progs))).
+  Lemma inv_dict_ok : forall s, inv s -> dict_ok base (dict_content (hp s) (sd s)).
   Proof.
-    intros d0 progs sched H p i k r Hin.
-    destruct (conc_inv d0 progs sched H) as (_ & _ & Hl).
-    rewrite Forall_forall in Hl. specialize (Hl _ Hin). simpl in Hl. tauto.
+    intros s (_ & Hd & _). unfold dict_ok, dict_content. rewrite Forall_map.
+    eapply Forall_impl; [|exact Hd]. intros kv (_ & B & _). exact B.
   Qed.
 
-  (* ---------------------------------------------- transform applied on every access *)
+  Lemma conc_dict_subset_base_l : forall h0 d0 progs sched,
+    cache_init_ok base h0 d0 ->
+    let s := run sched (init h0 d0 progs) in dict_ok base (dict_content (hp s) (sd s)).
+  Proof. intros. apply inv_dict_ok, conc_inv; auto. Qed.
+
+  Lemma conc_values_equal_base_l : forall h0 d0 progs sched,
+    cache_init_ok base h0 d0 -> values_equal_base base tf draws (log (run sched (init h0 d0 progs))).
+  Proof.
+    intros h0 d0 progs sched H p i k r Hin.
+    destruct (conc_inv h0 d0 progs sched H) as (_ & _ & _ & Hl).
+    rewrite Forall_forall in Hl. specialize (Hl _ Hin). simpl in Hl. tauto.
+  Qed.
+End Q.
+
+(* ---------------------------------------------- transform applied on every access *)
+Section Calls.
+  Variable fixed copyfix byref inplace : bool.
+  Variable base : Z -> option Z.
+  Variable blen : Z.
+  Variable tf : Z -> Z -> Z.
+  Variable draws : nat -> nat -> Z.
+  Notation pstep := (pstep fixed copyfix byref inplace base blen tf draws).
+  Notation step := (step fixed copyfix byref inplace base blen tf draws).
+  Notation run := (run fixed copyfix byref inplace base blen tf draws).
+
+  Lemma deliver_ev : forall p i k h a h2 reach e,
+    deliver copyfix inplace tf draws p i k h a = (h2, reach, e) -> exists v, e = ERet p i k (RVal v).
+  Proof.
+    unfold deliver. intros p i k h a h2 reach e H.
+    destruct (ret_copy copyfix h a) as [h1 a1]. destruct (apply_tf inplace tf h1 (draws p k) a1) as [[x y] z].
+    inversion H; subst. eauto.
+  Qed.
+
   Lemma calls_of_app : forall p a b, calls_of p (a ++ b) = calls_of p a ++ calls_of p b.
   Proof. intros. unfold calls_of. apply flat_map_app. Qed.
 
-  Lemma pstep_calls : forall p d pr d' pr' evs,
-    pstep p d pr = (d', pr', evs) ->
+  Lemma pstep_calls : forall p h d pr h' d' pr' evs,
+    pstep p h d pr = (h', d', pr', evs) ->
     (forall q, q <> p -> calls_of q evs = []) /\
     ((calls_of p evs = [] /\ nacc pr' = nacc pr) \/ (calls_of p evs = [nacc pr] /\ nacc pr' = S (nacc pr))).
   Proof.
-    intros p d pr d' pr' evs H. unfold Model.pstep in H.
+    intros p h d pr h' d' pr' evs H. unfold Model.pstep in H.
     assert (Hne : forall q, q <> p -> Nat.eqb p q = false) by (intros; apply Nat.eqb_neq; auto).
-    destruct (pc pr); [destruct (todo pr) as [|[i| |] r]; [| destruct (dget i d) | |]
-                      | destruct (base i) | | destruct (dget i d); [|destruct fixed]];
+    destruct (pc pr).
+    - destruct (todo pr) as [|[i| | |w] r]; [| destruct (dget i d) | | |];
+        inversion H; subst; simpl; (split; [intros q Hq; reflexivity | auto]).
+    - destruct (base i); [unfold halloc in H|]; inversion H; subst; simpl; rewrite ?Nat.eqb_refl;
+        (split; [intros q Hq; rewrite ?(Hne q Hq); reflexivity | auto]).
+    - destruct (transport byref h a) as [h1 ad].
+      destruct (deliver copyfix inplace tf draws p i (nacc pr) h1 a) as [[h2 reach] e] eqn:Ed.
+      destruct (deliver_ev _ _ _ _ _ _ _ _ Ed) as [v ->].
       inversion H; subst; simpl; rewrite ?Nat.eqb_refl; (split; [intros q Hq; rewrite ?(Hne q Hq); reflexivity | auto]).
+    - destruct (dget i d) as [ad|].
+      + destruct (transport byref h ad) as [h1 a].
+        destruct (deliver copyfix inplace tf draws p i (nacc pr) h1 a) as [[h2 reach] e] eqn:Ed.
+        destruct (deliver_ev _ _ _ _ _ _ _ _ Ed) as [v ->].
+        inversion H; subst; simpl; rewrite ?Nat.eqb_refl; (split; [intros q Hq; rewrite ?(Hne q Hq); reflexivity | auto]).
+      + destruct fixed; inversion H; subst; simpl; rewrite ?Nat.eqb_refl;
+          (split; [intros q Hq; rewrite ?(Hne q Hq); reflexivity | auto]).
   Qed.
 
   Definition nacc_of (s : state) (p : nat) : nat :=
@@ -169,8 +438,8 @@ Section P.
   Proof.
     intros s q H p. unfold Model.step.
     destruct (nth_error (procs s) q) as [pr|] eqn:E; [|apply H].
-    destruct (pstep q (sd s) pr) as [[d' pr'] evs] eqn:Es.
-    destruct (pstep_calls _ _ _ _ _ _ Es) as (Hoth & Hown).
+    destruct (pstep q (hp s) (sd s) pr) as [[[h' d'] pr'] evs] eqn:Es.
+    destruct (pstep_calls _ _ _ _ _ _ _ _ Es) as (Hoth & Hown).
     unfold nacc_of; simpl. rewrite calls_of_app, H. unfold nacc_of.
     destruct (Nat.eq_dec q p) as [->|Hne].
     - rewrite (nth_error_set_nth_eq _ _ _ _ _ E), E.
@@ -183,93 +452,278 @@ Section P.
   Lemma run_cinv : forall sched s, cinv s -> cinv (run sched s).
   Proof. induction sched; simpl; intros; auto. apply IHsched, step_cinv; auto. Qed.
 
-  Lemma init_cinv : forall d0 progs, cinv (init d0 progs).
+  Lemma init_cinv : forall h0 d0 progs, cinv (init h0 d0 progs).
   Proof.
-    intros d0 progs p. unfold nacc_of; simpl. rewrite nth_error_map.
+    intros h0 d0 progs p. unfold nacc_of; simpl. rewrite nth_error_map.
     destruct (nth_error progs p); reflexivity.
   Qed.
 
-  Lemma conc_transform_every_access_l : forall d0 progs sched,
-    transform_every_access (log (run sched (init d0 progs))).
+  Lemma conc_transform_every_access_l : forall h0 d0 progs sched,
+    transform_every_access (log (run sched (init h0 d0 progs))).
   Proof.
-    intros d0 progs sched p.
-    rewrite (run_cinv sched _ (init_cinv d0 progs) p). rewrite seq_length. reflexivity.
+    intros h0 d0 progs sched p.
+    rewrite (run_cinv sched _ (init_cinv h0 d0 progs) p). rewrite seq_length. reflexivity.
   Qed.
 
-  (* ------------------------------------------------------------ sequential histories *)
-  Definition idle (k : nat) : proc := {| pc := PStart; todo := []; nacc := k |}.
+  (* ------------------------------------------------------------------ progress *)
+  (* atomic steps a process needs at most to finish its program *)
+  Definition work (pr : proc) : nat :=
+    match pc pr with
+    | PStart => 4 * length (todo pr)
+    | PHit _ => 4 * pred (length (todo pr)) + 3
+    | PMiss _ => 4 * pred (length (todo pr)) + 2
+    | PSet _ _ => 4 * pred (length (todo pr)) + 1
+    end.
+
+  Lemma pstep_work : forall p h d pr h' d' pr' evs,
+    pstep p h d pr = (h', d', pr', evs) -> (work pr' < work pr \/ (work pr = 0 /\ pr' = pr))%nat.
+  Proof.
+    intros p h d pr h' d' pr' evs H. unfold Model.pstep in H. unfold work.
+    destruct (pc pr) eqn:Epc.
+    - destruct (todo pr) as [|[i| | |w] r] eqn:Et; [| destruct (dget i d) | | |];
+        inversion H; subst; simpl; rewrite ?Epc, ?Et; simpl; try lia. right; auto.
+    - destruct (base i); [unfold halloc in H|]; inversion H; subst; simpl;
+        destruct (todo pr) as [|c r]; simpl; lia.
+    - destruct (transport byref h a) as [h1 ad].
+      destruct (deliver copyfix inplace tf draws p i (nacc pr) h1 a) as [[h2 reach] e].
+      inversion H; subst; simpl. destruct (todo pr) as [|c r]; simpl; lia.
+    - destruct (dget i d) as [ad|].
+      + destruct (transport byref h ad) as [h1 a].
+        destruct (deliver copyfix inplace tf draws p i (nacc pr) h1 a) as [[h2 reach] e].
+        inversion H; subst; simpl. destruct (todo pr) as [|c r]; simpl; lia.
+      + destruct fixed; inversion H; subst; simpl; destruct (todo pr) as [|c r]; simpl; lia.
+  Qed.
+
+  Definition work_of (s : state) (p : nat) : nat :=
+    match nth_error (procs s) p with Some pr => work pr | None => O end.
+
+  Lemma step_work : forall s q p,
+    (q <> p -> work_of (step s q) p = work_of s p) /\
+    (q = p -> (work_of (step s q) p <= pred (work_of s p))%nat).
+  Proof.
+    intros s q p. unfold work_of, Model.step.
+    destruct (nth_error (procs s) q) as [pr|] eqn:E.
+    - destruct (pstep q (hp s) (sd s) pr) as [[[h' d'] pr'] evs] eqn:Es. simpl. split.
+      + intro Hne. rewrite nth_error_set_nth_neq by auto. reflexivity.
+      + intros ->. rewrite (nth_error_set_nth_eq _ _ _ _ _ E), E.
+        destruct (pstep_work _ _ _ _ _ _ _ _ Es) as [Hlt | [Hz ->]]; lia.
+    - split; auto. intros ->. rewrite E. lia.
+  Qed.
+
+  Lemma run_work : forall sched s p,
+    (work_of (run sched s) p <= work_of s p - count_occ Nat.eq_dec sched p)%nat.
+  Proof.
+    induction sched as [|q r IH]; simpl; intros s p; [lia|].
+    specialize (IH (step s q) p). destruct (step_work s q p) as [Hne Heq].
+    destruct (Nat.eq_dec q p) as [->|Hn].
+    - specialize (Heq eq_refl). lia.
+    - rewrite (Hne Hn) in IH. lia.
+  Qed.
+
+  Lemma work_zero : forall pr, work pr = O -> pc pr = PStart /\ todo pr = [].
+  Proof.
+    intros pr. unfold work. destruct (pc pr); try lia. destruct (todo pr); simpl; try lia. auto.
+  Qed.
+
+  Lemma step_length : forall s q, length (procs (step s q)) = length (procs s).
+  Proof.
+    intros. unfold Model.step.
+    destruct (nth_error (procs s) q) as [pr|]; auto. destruct (pstep q (hp s) (sd s) pr) as [[[a b] c] e]. simpl.
+    apply length_set_nth.
+  Qed.
+
+  Lemma run_length : forall sched s, length (procs (run sched s)) = length (procs s).
+  Proof. induction sched as [|q r IH]; simpl; intros; auto. rewrite IH. apply step_length. Qed.
+
+  (* every process finishes its program after at most 4 own steps per command, whatever
+     the other processes do in between (the KeyError fallback cannot loop) *)
+  Lemma conc_progress_l : forall h0 d0 progs sched p prog,
+    nth_error progs p = Some prog ->
+    (4 * length prog <= count_occ Nat.eq_dec sched p)%nat ->
+    exists pr, nth_error (procs (run sched (init h0 d0 progs))) p = Some pr /\ pc pr = PStart /\ todo pr = [].
+  Proof.
+    intros h0 d0 progs sched p prog Hp Hc.
+    pose proof (run_work sched (init h0 d0 progs) p) as Hw.
+    assert (Hi : work_of (init h0 d0 progs) p = (4 * length prog)%nat).
+    { unfold work_of; simpl. rewrite nth_error_map, Hp. reflexivity. }
+    rewrite Hi in Hw.
+    unfold work_of in Hw.
+    destruct (nth_error (procs (run sched (init h0 d0 progs))) p) as [pr|] eqn:E.
+    - exists pr. split; auto. apply work_zero. lia.
+    - exfalso. apply nth_error_None in E. rewrite run_length in E. simpl in E. rewrite map_length in E.
+      assert (p < length progs)%nat by (apply nth_error_Some; congruence). lia.
+  Qed.
+
+  (* bounded overtaking: from ANY state in which p stands between two commands, the pending
+     command c has returned as soon as p itself was scheduled 4 times - no matter how often and
+     with what the other processes were scheduled in between *)
+  Lemma conc_bounded_overtaking_l : forall s sched p pr c r,
+    nth_error (procs s) p = Some pr -> pc pr = PStart -> todo pr = c :: r ->
+    (4 <= count_occ Nat.eq_dec sched p)%nat ->
+    exists pr', nth_error (procs (run sched s)) p = Some pr' /\ (length (todo pr') <= length r)%nat.
+  Proof.
+    intros s sched p pr c r E Epc Et Hc.
+    pose proof (run_work sched s p) as Hw. unfold work_of in Hw. rewrite E in Hw.
+    assert (Hwk : work pr = (4 * S (length r))%nat) by (unfold work; rewrite Epc, Et; reflexivity).
+    destruct (nth_error (procs (run sched s)) p) as [pr'|] eqn:E'.
+    - exists pr'. split; auto. unfold work in Hw at 1. destruct (pc pr'); destruct (todo pr'); simpl in *; lia.
+    - exfalso. apply nth_error_None in E'. rewrite run_length in E'.
+      assert (p < length (procs s))%nat by (apply nth_error_Some; congruence). lia.
+  Qed.
+End Calls.
+
+Section Seq.
+  Variable fixed : bool.
+  Variable byref inplace : bool.
+  Variable base : Z -> option Z.
+  Variable blen : Z.
+  Variable tf : Z -> Z -> Z.
+  Variable draws : nat -> nat -> Z.
+
+  Notation pstep := (pstep fixed true byref inplace base blen tf draws).
+  Notation step := (step fixed true byref inplace base blen tf draws).
+  Notation do_cmd := (do_cmd fixed true byref inplace base blen tf draws).
+  Notation seq_exec := (seq_exec fixed true byref inplace base blen tf draws).
+  Notation spec_seq := (spec_seq base blen tf draws).
+  Notation inv := (inv fixed base tf draws).
+  Notation deliver := (deliver true inplace tf draws).
+
+  Definition idle (k : nat) (l : list nat) : proc := {| pc := PStart; todo := []; nacc := k; last := l |}.
 
   (* what one command does when run to completion *)
-  Definition big (p k : nat) (d : dict) (c : cmd) : dict * nat * list ev :=
+  Definition big (p k : nat) (l : list nat) (h : heap) (d : dict) (c : cmd) : heap * dict * nat * list nat * list ev :=
     match c with
-    | CClear => ([], k, [EClear p])
-    | CLen => (d, k, [ELen p blen])
+    | CClear => (h, [], k, l, [EClear p])
+    | CLen => (h, d, k, l, [ELen p blen])
+    | CMut w => (hbump w l h, d, k, l, [EMut p])
     | CGet i =>
         match dget i d with
-        | Some v => (d, S k, [ERet p i k (RVal (tf (draws p k) v))])
+        | Some ad => let '(h1, a) := transport byref h ad in
+                     let '(h2, reach, e) := deliver p i k h1 a in
+                     (h2, d, S k, reach, [e])
         | None =>
             match base i with
-            | Some v => (dset i v d, S k, [ELoad p i; ERet p i k (RVal (tf (draws p k) v))])
-            | None => (d, k, [ELoad p i; ERet p i k RBaseError])
+            | Some v => let '(h0, a) := halloc v h in
+                        let '(h1, ad) := transport byref h0 a in
+                        let '(h2, reach, e) := deliver p i k h1 a in
+                        (h2, dset i ad d, S k, reach, [ELoad p i; e])
+            | None => (h, d, k, l, [ELoad p i; ERet p i k RBaseError])
             end
         end
     end.
 
-  Lemma do_cmd_big : forall s p c k,
-    nth_error (procs s) p = Some (idle k) ->
+  Section OneCmd.
+    Variable s : state.
+    Variable p : nat.
+    Variable pr0 : proc.
+    Hypothesis E : nth_error (procs s) p = Some pr0.
+
+    Definition st (h : heap) (d : dict) (pr : proc) (lg : list ev) : state :=
+      {| hp := h; sd := d; procs := set_nth p pr (procs s); log := lg |}.
+
+    Lemma st_nth : forall h d pr lg, nth_error (procs (st h d pr lg)) p = Some pr.
+    Proof. intros. simpl. eapply nth_error_set_nth_eq; eauto. Qed.
+
+    Lemma step_st : forall h d pr lg,
+      step (st h d pr lg) p =
+      let '(h', d', pr', evs) := pstep p h d pr in st h' d' pr' (lg ++ evs).
+    Proof.
+      intros. unfold Model.step. rewrite st_nth. simpl hp. simpl sd.
+      destruct (pstep p h d pr) as [[[h' d'] pr'] evs]. unfold st. simpl. rewrite set_nth_set_nth. reflexivity.
+    Qed.
+
+    Lemma finish_st_start : forall f h d pr lg,
+      is_start (pc pr) = true -> finish fixed true byref inplace base blen tf draws f (st h d pr lg) p = st h d pr lg.
+    Proof. intros. destruct f; simpl; auto. unfold at_start. rewrite st_nth, H. reflexivity. Qed.
+
+    Lemma finish_st_step : forall f h d pr lg,
+      is_start (pc pr) = false ->
+      finish fixed true byref inplace base blen tf draws (S f) (st h d pr lg) p =
+      finish fixed true byref inplace base blen tf draws f (step (st h d pr lg) p) p.
+    Proof. intros. simpl. unfold at_start. rewrite st_nth, H. reflexivity. Qed.
+
+    Lemma push_st : forall c, push s p c =
+      st (hp s) (sd s) {| pc := pc pr0; todo := todo pr0 ++ [c]; nacc := nacc pr0; last := last pr0 |} (log s).
+    Proof. intros. unfold push. rewrite E. reflexivity. Qed.
+  End OneCmd.
+
+  Lemma do_cmd_big : forall s p c k l,
+    nth_error (procs s) p = Some (idle k l) ->
     do_cmd s (p, c) =
-    let '(d', k', evs) := big p k (sd s) c in
-    {| sd := d'; procs := set_nth p (idle k') (procs s); log := log s ++ evs |}.
+    let '(h', d', k', l', evs) := big p k l (hp s) (sd s) c in
+    {| hp := h'; sd := d'; procs := set_nth p (idle k' l') (procs s); log := log s ++ evs |}.
   Proof.
-    intros s p c k E.
-    assert (HX : forall a, nth_error (set_nth p a (procs s)) p = Some a)
-      by (intro a; eapply nth_error_set_nth_eq; eauto).
-    unfold Model.do_cmd, Model.push; simpl fst; simpl snd. rewrite E.
-    unfold Model.finish, Model.at_start, Model.step, Model.pstep, big, idle. simpl.
-    destruct c as [i| |]; simpl; rewrite ?HX; simpl; rewrite ?set_nth_set_nth, ?HX; simpl; auto.
-    destruct (dget i (sd s)) eqn:Eg; simpl;
-      repeat progress (rewrite ?Eg, ?set_nth_set_nth, ?HX, ?app_nil_r; simpl); auto.
-    destruct (base i) eqn:Eb; simpl;
-      repeat progress (rewrite ?Eg, ?set_nth_set_nth, ?HX, ?app_nil_r, <- ?app_assoc; simpl); auto.
+    intros s p c k l E.
+    unfold Model.do_cmd. simpl fst. simpl snd. rewrite (push_st s p _ E). simpl pc. simpl todo. simpl nacc. simpl last.
+    rewrite (step_st s p _ E).
+    destruct c as [i| | |w].
+    - (* CGet *)
+      unfold Model.pstep at 1, big. simpl pc. simpl todo. simpl nacc. simpl last. cbv iota.
+      destruct (dget i (sd s)) as [ad|] eqn:Eg.
+      + (* hit *)
+        cbv iota beta. rewrite (finish_st_step s p _ E) by reflexivity. rewrite (step_st s p _ E).
+        unfold Model.pstep at 1. simpl pc. simpl todo. simpl nacc. simpl last. cbv iota. rewrite Eg.
+        destruct (transport byref (hp s) ad) as [h1 a].
+        destruct (deliver p i k h1 a) as [[h2 reach] e].
+        cbv iota beta. rewrite (finish_st_start s p _ E) by reflexivity.
+        unfold st, idle. simpl. rewrite app_nil_r. reflexivity.
+      + (* miss *)
+        cbv iota beta. rewrite (finish_st_step s p _ E) by reflexivity. rewrite (step_st s p _ E).
+        unfold Model.pstep at 1. simpl pc. simpl todo. simpl nacc. simpl last. cbv iota.
+        destruct (base i) as [v|] eqn:Eb.
+        * destruct (halloc v (hp s)) as [h0 a].
+          cbv iota beta. rewrite (finish_st_step s p _ E) by reflexivity. rewrite (step_st s p _ E).
+          unfold Model.pstep at 1. simpl pc. simpl todo. simpl nacc. simpl last. cbv iota.
+          destruct (transport byref h0 a) as [h1 ad].
+          destruct (deliver p i k h1 a) as [[h2 reach] e].
+          cbv iota beta. rewrite (finish_st_start s p _ E) by reflexivity.
+          unfold st, idle. simpl. rewrite app_nil_r, <- app_assoc. reflexivity.
+        * cbv iota beta. rewrite (finish_st_start s p _ E) by reflexivity.
+          unfold st, idle. simpl. rewrite app_nil_r. reflexivity.
+    - unfold Model.pstep at 1, big. simpl pc. simpl todo. simpl nacc. simpl last. cbv iota beta.
+      rewrite (finish_st_start s p _ E) by reflexivity. reflexivity.
+    - unfold Model.pstep at 1, big. simpl pc. simpl todo. simpl nacc. simpl last. cbv iota beta.
+      rewrite (finish_st_start s p _ E) by reflexivity. reflexivity.
+    - unfold Model.pstep at 1, big. simpl pc. simpl todo. simpl nacc. simpl last. cbv iota beta.
+      rewrite (finish_st_start s p _ E) by reflexivity. reflexivity.
   Qed.
+
+  (* ---- the invariant along sequential histories *)
+  Lemma push_inv : forall s p c, inv s -> inv (push s p c).
+  Proof.
+    intros s p c H. unfold push. destruct (nth_error (procs s) p) as [pr|] eqn:E; auto.
+    destruct H as (Hw & Hd & Hp & Hl). unfold inv; simpl.
+    assert (EW : W (set_nth p {| pc := pc pr; todo := todo pr ++ [c]; nacc := nacc pr; last := last pr |} (procs s)) = W (procs s)).
+    { unfold W. f_equal. eapply map_set_nth_same; eauto. }
+    rewrite EW. repeat split; auto.
+    apply Forall_set_nth; auto. pose proof (Forall_nth_error _ _ _ _ _ Hp E) as Hpr.
+    unfold proc_ok in *. simpl. exact Hpr.
+  Qed.
+
+  Lemma finish_inv : forall fuel s p, inv s -> inv (finish fixed true byref inplace base blen tf draws fuel s p).
+  Proof.
+    induction fuel; simpl; intros; auto. destruct (at_start s p); auto. apply IHfuel. apply step_inv; auto.
+  Qed.
+
+  Lemma do_cmd_inv : forall s pc, inv s -> inv (do_cmd s pc).
+  Proof. intros. unfold Model.do_cmd. apply finish_inv, step_inv, push_inv; auto. Qed.
 
   (* all n processes idle, p having made [cnt p] transform calls *)
   Definition all_idle (n : nat) (cnt : nat -> nat) (s : state) : Prop :=
-    forall p, (p < n)%nat -> nth_error (procs s) p = Some (idle (cnt p)).
+    forall p, (p < n)%nat -> exists l, nth_error (procs s) p = Some (idle (cnt p) l).
 
-  (* the dict holds exactly the samples of [seen] *)
-  Definition cache_rel (seen : list Z) (d : dict) : Prop :=
-    forall i, dget i d = if mem i seen then base i else None.
-  Definition seen_ok (seen : list Z) : Prop := forall i, mem i seen = true -> has base i = true.
+  (* the dict holds exactly the indices of [seen] *)
+  Definition keys_rel (seen : list Z) (d : dict) : Prop :=
+    forall i, (match dget i d with Some _ => true | None => false end) = mem i seen.
 
-  Lemma all_idle_set : forall n cnt s p k d l,
-    all_idle n cnt s -> (p < n)%nat ->
-    all_idle n (fun q => if Nat.eqb q p then k else cnt q)
-             {| sd := d; procs := set_nth p (idle k) (procs s); log := l |}.
-  Proof.
-    intros n cnt s p k d l H Hp q Hq. simpl.
-    destruct (Nat.eqb q p) eqn:E.
-    - apply Nat.eqb_eq in E. subst. eapply nth_error_set_nth_eq. apply H; auto.
-    - apply Nat.eqb_neq in E. rewrite nth_error_set_nth_neq by auto. apply H; auto.
-  Qed.
-
-  Lemma all_idle_ext : forall n c1 c2 s, (forall q, c1 q = c2 q) -> all_idle n c1 s -> all_idle n c2 s.
-  Proof. intros n c1 c2 s He H p Hp. rewrite <- He. apply H; auto. Qed.
-
-  Lemma spec_seq_ext : forall hist seen c1 c2, (forall q, c1 q = c2 q) -> spec_seq seen c1 hist = spec_seq seen c2 hist.
-  Proof.
-    induction hist as [|[p [i| |]] r IH]; simpl; intros seen c1 c2 He; auto.
-    - rewrite He. f_equal. f_equal. destruct (has base i); apply IH; auto.
-      intro q. unfold bump. rewrite He. reflexivity.
-    - f_equal. apply IH; auto.
-    - f_equal. apply IH; auto.
-  Qed.
-
-  Lemma idle_after : forall n cnt cnt' s p k d l,
+  Lemma idle_after : forall n cnt cnt' s p k l h d lg,
     all_idle n cnt s -> (p < n)%nat -> (forall q, cnt' q = if Nat.eqb q p then k else cnt q) ->
-    all_idle n cnt' {| sd := d; procs := set_nth p (idle k) (procs s); log := l |}.
+    all_idle n cnt' {| hp := h; sd := d; procs := set_nth p (idle k l) (procs s); log := lg |}.
   Proof.
-    intros. eapply all_idle_ext; [|apply all_idle_set; eauto]. intro q; simpl. symmetry. auto.
+    intros n cnt cnt' s p k l h d lg H Hp Hc q Hq. simpl. rewrite Hc.
+    destruct (Nat.eqb q p) eqn:E.
+    - apply Nat.eqb_eq in E. subst. exists l. destruct (H p Hp) as [l0 E0]. eapply nth_error_set_nth_eq; eauto.
+    - apply Nat.eqb_neq in E. rewrite nth_error_set_nth_neq by auto. apply H; auto.
   Qed.
 
   Ltac idle_tac :=
@@ -278,43 +732,56 @@ Section P.
     destruct (Nat.eqb q _) eqn:E; auto; apply Nat.eqb_eq in E; subst; auto.
 
   Lemma seq_main : forall hist n s seen cnt,
-    all_idle n cnt s -> cache_rel seen (sd s) -> seen_ok seen -> pids_below n hist ->
+    inv s -> all_idle n cnt s -> keys_rel seen (sd s) -> pids_below n hist ->
     log (fold_left do_cmd hist s) = log s ++ spec_seq seen cnt hist.
   Proof.
-    induction hist as [|[p c] r IH]; simpl; intros n s seen cnt Hi Hc Hs Hb.
+    induction hist as [|[p c] r IH]; simpl; intros n s seen cnt Hinv Hi Hk Hb.
     - rewrite app_nil_r. reflexivity.
     - inversion Hb as [|x y Hp Hb']; subst. simpl in Hp.
-      rewrite (do_cmd_big s p c (cnt p) (Hi p Hp)).
-      destruct c as [i| |]; simpl.
+      destruct (Hi p Hp) as [l El].
+      pose proof (do_cmd_inv s (p, c) Hinv) as Hinv'.
+      rewrite (do_cmd_big s p c (cnt p) l El) in *.
+      destruct Hinv as (Hw & Hd & _ & _).
+      destruct c as [i| | |w]; simpl in *.
       + (* CGet *)
-        rewrite (Hc i). destruct (mem i seen) eqn:Em.
-        * (* seen: hit *)
-          pose proof (Hs i Em) as Hh. unfold has in Hh. destruct (base i) as [v|] eqn:Eb; try discriminate.
-          rewrite (IH n _ (i :: seen) (bump cnt p)); [ | idle_tac | | | assumption].
-          -- simpl. rewrite <- app_assoc. simpl. unfold has, expected. rewrite Eb. reflexivity.
-          -- intro j. simpl sd. rewrite mem_cons. rewrite (Hc j). destruct (j =? i) eqn:E; simpl; auto.
-             apply Z.eqb_eq in E. subst. rewrite Em. reflexivity.
-          -- intro j. rewrite mem_cons. destruct (j =? i) eqn:E; simpl; auto.
-             apply Z.eqb_eq in E. subst. intros _. unfold has. rewrite Eb. reflexivity.
-        * destruct (base i) as [v|] eqn:Eb.
+        pose proof (Hk i) as Hki.
+        destruct (dget i (sd s)) as [ad|] eqn:Eg.
+        * (* hit *)
+          destruct (cache_ok_dget _ _ _ _ _ _ Hd Eg) as (A & B & _).
+          destruct (transport byref (hp s) ad) as [h1 a] eqn:Et.
+          destruct (deliver p i (cnt p) h1 a) as [[h2 reach] e] eqn:Ed.
+          destruct (transport_ok _ _ _ _ _ Et A) as (X1 & X2 & X3 & _).
+          destruct (deliver_ok _ _ _ _ _ _ _ _ _ _ _ Ed X2) as (_ & _ & Y3).
+          rewrite <- Hki. simpl.
+          rewrite (IH n _ (i :: seen) (bump cnt p)); [ | exact Hinv' | idle_tac | | assumption].
+          -- simpl. rewrite <- app_assoc. simpl. unfold has, expected. rewrite B, Y3, X3. reflexivity.
+          -- intro j. simpl sd. rewrite mem_cons. rewrite <- (Hk j). destruct (j =? i) eqn:E; simpl; auto.
+             apply Z.eqb_eq in E. subst. rewrite Eg. reflexivity.
+        * rewrite <- Hki. destruct (base i) as [v|] eqn:Eb.
           -- (* miss, loaded and stored *)
-             rewrite (IH n _ (i :: seen) (bump cnt p)); [ | idle_tac | | | assumption].
-             ++ simpl. rewrite <- app_assoc. simpl. unfold has, expected. rewrite Eb. reflexivity.
-             ++ intro j. simpl sd. rewrite mem_cons. simpl. destruct (j =? i) eqn:E; simpl.
-                ** apply Z.eqb_eq in E. subst. auto.
-                ** apply Hc.
-             ++ intro j. rewrite mem_cons. destruct (j =? i) eqn:E; simpl; auto.
-                apply Z.eqb_eq in E. subst. intros _. unfold has. rewrite Eb. reflexivity.
+             unfold halloc in *.
+             destruct (transport byref (hp s ++ [v]) (length (hp s))) as [h1 ad] eqn:Et.
+             destruct (deliver p i (cnt p) h1 (length (hp s))) as [[h2 reach] e] eqn:Ed.
+             assert (A : (length (hp s) < length (hp s ++ [v]))%nat) by (rewrite app_length; simpl; lia).
+             destruct (transport_ok _ _ _ _ _ Et A) as (X1 & X2 & X3 & _).
+             assert (A1 : (length (hp s) < length h1)%nat) by (destruct X1; lia).
+             destruct (deliver_ok _ _ _ _ _ _ _ _ _ _ _ Ed A1) as (_ & _ & Y3).
+             rewrite (IH n _ (i :: seen) (bump cnt p)); [ | exact Hinv' | idle_tac | | assumption].
+             ++ simpl. rewrite <- app_assoc. simpl. unfold has, expected. rewrite Eb, Y3.
+                destruct X1 as [_ X1]. rewrite X1 by auto. rewrite hget_alloc. reflexivity.
+             ++ intro j. simpl sd. rewrite mem_cons. simpl. destruct (j =? i) eqn:E; simpl; auto; try apply Hk.
           -- (* the wrapped dataset raises: nothing cached *)
-             rewrite (IH n _ seen cnt); [ | idle_tac | assumption | assumption | assumption].
+             rewrite (IH n _ seen cnt); [ | exact Hinv' | idle_tac | assumption | assumption].
              simpl. rewrite <- app_assoc. simpl. unfold has, expected. rewrite Eb. reflexivity.
       + (* CClear *)
-        rewrite (IH n _ [] cnt); [ | idle_tac | | | assumption].
+        rewrite (IH n _ [] cnt); [ | exact Hinv' | idle_tac | | assumption].
         * simpl. rewrite <- app_assoc. reflexivity.
         * intro j. reflexivity.
-        * intros j Hj. discriminate.
       + (* CLen *)
-        rewrite (IH n _ seen cnt); [ | idle_tac | assumption | assumption | assumption].
+        rewrite (IH n _ seen cnt); [ | exact Hinv' | idle_tac | assumption | assumption].
+        simpl. rewrite <- app_assoc. reflexivity.
+      + (* CMut *)
+        rewrite (IH n _ seen cnt); [ | exact Hinv' | idle_tac | assumption | assumption].
         simpl. rewrite <- app_assoc. reflexivity.
   Qed.
 
@@ -324,9 +791,18 @@ Section P.
   Proof.
     intros n hist H. unfold Model.seq_exec.
     erewrite seq_main with (seen := []) (cnt := fun _ => O) (n := n); auto.
-    - intros p Hp. simpl. rewrite nth_error_map. rewrite nth_error_repeat by auto. reflexivity.
+    - apply init_inv. constructor.
+    - intros p Hp. simpl. rewrite nth_error_map. rewrite nth_error_repeat by auto. exists []. reflexivity.
     - intro i. reflexivity.
-    - intros i Hi. discriminate.
+  Qed.
+
+  (* the cache content after a sequential history *)
+  Lemma seq_inv : forall n hist, inv (seq_exec n hist).
+  Proof.
+    intros n hist. unfold Model.seq_exec.
+    assert (G : forall h s, inv s -> inv (fold_left do_cmd h s)).
+    { induction h; simpl; intros; auto. apply IHh, do_cmd_inv; auto. }
+    apply G, init_inv. constructor.
   Qed.
 
   (* ------------------------------------------ at most one load between clears *)
@@ -334,7 +810,7 @@ Section P.
     (forall j, In j S -> has base j = true -> mem j seen = true) ->
     loads_once base S (spec_seq seen cnt hist).
   Proof.
-    induction hist as [|[p [i| |]] r IH]; simpl; intros S seen cnt HS; auto.
+    induction hist as [|[p [i| | |w]] r IH]; simpl; intros S seen cnt HS; auto.
     - destruct (mem i seen) eqn:Em; simpl.
       + apply IH. intros j Hj Hh. specialize (HS j Hj Hh).
         destruct (has base i); auto. rewrite mem_cons, HS. apply orb_true_r.
@@ -356,6 +832,7 @@ Section P.
     | [] => (seen, cnt)
     | (p, CClear) :: r => spec_state [] cnt r
     | (p, CLen) :: r => spec_state seen cnt r
+    | (p, CMut _) :: r => spec_state seen cnt r
     | (p, CGet i) :: r => spec_state (if has base i then i :: seen else seen) (if has base i then bump cnt p else cnt) r
     end.
 
@@ -363,24 +840,26 @@ Section P.
     spec_seq seen cnt (h1 ++ h2) =
     spec_seq seen cnt h1 ++ spec_seq (fst (spec_state seen cnt h1)) (snd (spec_state seen cnt h1)) h2.
   Proof.
-    induction h1 as [|[p [i| |]] r IH]; simpl; intros; auto.
+    induction h1 as [|[p [i| | |w]] r IH]; simpl; intros; auto.
     - rewrite IH. rewrite <- app_assoc. reflexivity.
+    - rewrite IH. reflexivity.
     - rewrite IH. reflexivity.
     - rewrite IH. reflexivity.
   Qed.
 
   Lemma spec_state_app : forall h1 h2 seen cnt,
     spec_state seen cnt (h1 ++ h2) = spec_state (fst (spec_state seen cnt h1)) (snd (spec_state seen cnt h1)) h2.
-  Proof. induction h1 as [|[p [i| |]] r IH]; simpl; intros; auto. Qed.
+  Proof. induction h1 as [|[p [i| | |w]] r IH]; simpl; intros; auto. Qed.
 
   Lemma no_get_not_seen : forall h i seen cnt,
     no_get i h -> mem i seen = false -> mem i (fst (spec_state seen cnt h)) = false.
   Proof.
-    induction h as [|[p [j| |]] r IH]; simpl; intros i seen cnt Hn Hm; auto.
+    induction h as [|[p [j| | |w]] r IH]; simpl; intros i seen cnt Hn Hm; auto.
     - apply IH.
       + intros q Hq. apply (Hn q). right; auto.
       + destruct (has base j); auto. rewrite mem_cons, Hm.
         destruct (i =? j) eqn:E; auto. apply Z.eqb_eq in E. subst. exfalso. apply (Hn p). left; auto.
+    - apply IH; auto. intros q Hq. apply (Hn q). right; auto.
     - apply IH; auto. intros q Hq. apply (Hn q). right; auto.
     - apply IH; auto. intros q Hq. apply (Hn q). right; auto.
   Qed.
@@ -409,103 +888,15 @@ Section P.
     rewrite no_get_not_seen by auto. simpl.
     eexists. reflexivity.
   Qed.
-End P.
+End Seq.
 
-(* ------------------------------------------------------------------ progress *)
-Section Progress.
-  Variable fixed : bool.
-  Variable base : Z -> option Z.
-  Variable blen : Z.
-  Variable tf : Z -> Z -> Z.
-  Variable draws : nat -> nat -> Z.
-  Notation pstep := (pstep fixed base blen tf draws).
-  Notation step := (step fixed base blen tf draws).
-  Notation run := (run fixed base blen tf draws).
-
-  (* atomic steps process needs at most to finish its program *)
-  Definition work (pr : proc) : nat :=
-    match pc pr with
-    | PStart => 4 * length (todo pr)
-    | PHit _ => 4 * pred (length (todo pr)) + 3
-    | PMiss _ => 4 * pred (length (todo pr)) + 2
-    | PSet _ _ => 4 * pred (length (todo pr)) + 1
-    end.
-
-  Lemma pstep_work : forall p d pr d' pr' evs,
-    pstep p d pr = (d', pr', evs) -> (work pr' < work pr \/ (work pr = 0 /\ pr' = pr))%nat.
-  Proof.
-    intros p d pr d' pr' evs H. unfold Model.pstep in H. unfold work.
-    destruct (pc pr) eqn:Epc; [destruct (todo pr) as [|[i| |] r] eqn:Et; [| destruct (dget i d) | |]
-                      | destruct (base i) | | destruct (dget i d); [|destruct fixed]];
-      inversion H; subst; simpl; rewrite ?Epc, ?Et; simpl;
-      try (destruct (todo pr) as [|c r]; simpl; lia); try lia.
-    right. auto.
-  Qed.
-
-  Definition work_of (s : state) (p : nat) : nat :=
-    match nth_error (procs s) p with Some pr => work pr | None => O end.
-
-  Lemma step_work : forall s q p,
-    (q <> p -> work_of (step s q) p = work_of s p) /\
-    (q = p -> (work_of (step s q) p <= pred (work_of s p))%nat).
-  Proof.
-    intros s q p. unfold work_of, Model.step.
-    destruct (nth_error (procs s) q) as [pr|] eqn:E.
-    - destruct (pstep q (sd s) pr) as [[d' pr'] evs] eqn:Es. simpl. split.
-      + intro Hne. rewrite nth_error_set_nth_neq by auto. reflexivity.
-      + intros ->. rewrite (nth_error_set_nth_eq _ _ _ _ _ E), E.
-        destruct (pstep_work _ _ _ _ _ _ Es) as [Hlt | [Hz ->]]; lia.
-    - split; auto. intros ->. rewrite E. lia.
-  Qed.
-
-  Lemma run_work : forall sched s p,
-    (work_of (run sched s) p <= work_of s p - count_occ Nat.eq_dec sched p)%nat.
-  Proof.
-    induction sched as [|q r IH]; simpl; intros s p; [lia|].
-    specialize (IH (step s q) p). destruct (step_work s q p) as [Hne Heq].
-    destruct (Nat.eq_dec q p) as [->|Hn].
-    - specialize (Heq eq_refl). lia.
-    - rewrite (Hne Hn) in IH. lia.
-  Qed.
-
-  Lemma work_zero : forall pr, work pr = O -> pc pr = PStart /\ todo pr = [].
-  Proof.
-    intros pr. unfold work. destruct (pc pr); try lia. destruct (todo pr); simpl; try lia. auto.
-  Qed.
-
-  Lemma run_length : forall sched s, length (procs (run sched s)) = length (procs s).
-  Proof.
-    induction sched as [|q r IH]; simpl; intros; auto. rewrite IH. unfold Model.step.
-    destruct (nth_error (procs s) q) as [pr|]; auto. destruct (pstep q (sd s) pr) as [[a b] c]. simpl.
-    apply length_set_nth.
-  Qed.
-
-  (* every process finishes its program after at most 4 own steps per command, whatever
-     the other processes do in between (the KeyError fallback cannot loop) *)
-  Lemma conc_progress_l : forall d0 progs sched p prog,
-    nth_error progs p = Some prog ->
-    (4 * length prog <= count_occ Nat.eq_dec sched p)%nat ->
-    exists pr, nth_error (procs (run sched (init d0 progs))) p = Some pr /\ pc pr = PStart /\ todo pr = [].
-  Proof.
-    intros d0 progs sched p prog Hp Hc.
-    pose proof (run_work sched (init d0 progs) p) as Hw.
-    assert (Hi : work_of (init d0 progs) p = (4 * length prog)%nat).
-    { unfold work_of; simpl. rewrite nth_error_map, Hp. reflexivity. }
-    rewrite Hi in Hw.
-    unfold work_of in Hw.
-    destruct (nth_error (procs (run sched (init d0 progs))) p) as [pr|] eqn:E.
-    - exists pr. split; auto. apply work_zero. lia.
-    - exfalso. apply nth_error_None in E. rewrite run_length in E. simpl in E. rewrite map_length in E.
-      assert (p < length progs)%nat by (apply nth_error_Some; congruence). lia.
-  Qed.
-End Progress.
-
-(* ------------------------------------------------------------- the repaired reader *)
-Lemma conc_transparent_l : forall base blen tf draws d0 progs sched,
-  dict_ok base d0 -> transparent base tf draws (log (run true base blen tf draws sched (init d0 progs))).
+(* ------------------------------------------------------------- the repaired code *)
+Lemma conc_transparent_l : forall byref inplace base blen tf draws h0 d0 progs sched,
+  cache_init_ok base h0 d0 ->
+  transparent base tf draws (log (run true true byref inplace base blen tf draws sched (init h0 d0 progs))).
 Proof.
-  intros base blen tf draws d0 progs sched H p i k r Hin.
-  destruct (conc_inv true base blen tf draws d0 progs sched H) as (_ & _ & Hl).
+  intros byref inplace base blen tf draws h0 d0 progs sched H p i k r Hin.
+  destruct (conc_inv true byref inplace base blen tf draws h0 d0 progs sched H) as (_ & _ & _ & Hl).
   rewrite Forall_forall in Hl. specialize (Hl _ Hin). simpl in Hl.
   destruct Hl as [Hl | [Hf _]]; [assumption | discriminate].
 Qed.
@@ -513,21 +904,53 @@ Qed.
 Lemma expected_not_keyerror : forall base tf d i, expected base tf d i <> RKeyError.
 Proof. intros. unfold expected. destruct (base i); discriminate. Qed.
 
-Lemma conc_no_error_l : forall base blen tf draws d0 progs sched,
-  dict_ok base d0 -> no_error (log (run true base blen tf draws sched (init d0 progs))).
+Lemma conc_no_error_l : forall byref inplace base blen tf draws h0 d0 progs sched,
+  cache_init_ok base h0 d0 ->
+  no_error (log (run true true byref inplace base blen tf draws sched (init h0 d0 progs))).
 Proof.
-  intros base blen tf draws d0 progs sched H p i k Hin.
-  apply (conc_transparent_l base blen tf draws d0 progs sched H) in Hin.
+  intros byref inplace base blen tf draws h0 d0 progs sched H p i k Hin.
+  apply (conc_transparent_l byref inplace base blen tf draws h0 d0 progs sched H) in Hin.
   symmetry in Hin. eapply expected_not_keyerror; eauto.
 Qed.
 
-(* ------------------------------- the reader BEFORE the fix: the race is reachable *)
+(* ------------------------------- the reader BEFORE fixes/C19_clear_race: the race is reachable *)
 (* process 0 reads index 3 twice, process 1 disposes: the second read's membership test
    succeeds, the dispose runs, the lookup raises KeyError *)
 Lemma conc_no_error_prefix_refuted_l :
   exists (progs : list (list cmd)) (sched : list nat),
     In (ERet 0 3 1 RKeyError)
-       (log (run false (fun i => Some (10 * i)) 5 (fun d v => d + v) (fun _ _ => 0) sched (init [] progs))).
+       (log (run false true false false (fun i => Some (10 * i)) 5 (fun d v => d + v) (fun _ _ => 0) sched (init [] [] progs))).
 Proof.
   exists [[CGet 3; CGet 3]; [CClear]], [0; 0; 0; 0; 1; 0]%nat. vm_compute. auto 10.
 Qed.
+
+(* ------------------------------- the code BEFORE fixes/C19_tensor_alias: the cache hands out itself *)
+(* by-reference transport (torch tensors) and an in-place transform x -> x + 100: the second access of
+   index 1 by the same process returns 210 instead of 110, and the cache holds 210 *)
+Lemma alias_inplace_transform_prefix_refuted_l :
+  let base := fun i => Some (10 * i) in
+  let tf := fun d v : Z => d + v in
+  let draws := fun (_ _ : nat) => 100 in
+  let hist := [(0, CGet 1); (0, CGet 1)]%nat in
+  let s := seq_exec true false true true base 5 tf draws 1 hist in
+  pids_below 1 hist /\
+  log s = [ELoad 0 1; ERet 0 1 0 (RVal 110); ERet 0 1 1 (RVal 210)] /\
+  log s <> spec_seq base 5 tf draws [] (fun _ => O) hist /\
+  ~ dict_ok base (dict_content (hp s) (sd s)).
+Proof.
+  cbv zeta. split; [repeat constructor|]. split; [vm_compute; reflexivity|]. split.
+  - vm_compute. discriminate.
+  - vm_compute. intro H. inversion H; subst. discriminate.
+Qed.
+
+(* no transform at all: process 0 adds 5, in place, to the sample it was handed; process 1 (another holder
+   of the same cache) then reads 15 where the wrapped dataset has 10 *)
+Lemma alias_consumer_write_prefix_refuted_l :
+  let base := fun i => Some (10 * i) in
+  let tf := fun d v : Z => v in
+  let draws := fun (_ _ : nat) => 0 in
+  let progs := [[CGet 1; CMut 5]; [CGet 1]] in
+  let sched := [0; 0; 0; 0; 1; 1]%nat in
+  log (run true false true true base 5 tf draws sched (init [] [] progs)) =
+  [ELoad 0 1; ERet 0 1 0 (RVal 10); EMut 0; ERet 1 1 0 (RVal 15)].
+Proof. vm_compute. reflexivity. Qed.
